@@ -97,3 +97,32 @@ func VerifC08InFlightSnapshot() {
 	vndAssert(serr == nil, "Snapshot failed while an insert was in flight")
 	vndObserve("off", uint64(off))
 }
+
+func init() { vndRegister("VerifC01LongString", VerifC01LongString) }
+
+// VerifC01LongString: a string / enum value of length 0, 255, 256 and 65535 with arbitrary bytes
+// at three positions is stored, overwritten and read back byte for byte, beside a second row.
+func VerifC01LongString() {
+	kind := vPickKind(vndParam("kinds"))
+	w := vNewWorld(vndParam("cap"), kind, 2, Options{})
+	lens := [4]int{0, 255, 256, 65535}
+	n := lens[vndChoice("len", 4)]
+	b := make([]byte, n)
+	for i := range b {
+		b[i] = byte(i*5 + 1)
+	}
+	if n > 0 {
+		b[0], b[n/2], b[n-1] = vndU8("first"), vndU8("mid"), vndU8("last")
+	}
+	long := string(b)
+	short := vndString("short", 1)
+	w.c.QueryAt(w.off[0], func(r Row) error { vSet(r, kind, "a", 0, long); return nil })
+	w.c.QueryAt(w.off[1], func(r Row) error { vSet(r, kind, "a", 0, short); return nil })
+	w.a[0], w.a[1] = vCell{has: true, str: long}, vCell{has: true, str: short}
+	w.check(w.c, "long value stored")
+	w.c.QueryAt(w.off[1], func(r Row) error { vSet(r, kind, "a", 0, long); return nil })
+	w.c.QueryAt(w.off[0], func(r Row) error { vSet(r, kind, "a", 0, short); return nil })
+	w.a[1], w.a[0] = vCell{has: true, str: long}, vCell{has: true, str: short}
+	w.check(w.c, "long and short values swapped")
+	vndObserve("n", uint64(n))
+}
